@@ -32,13 +32,22 @@ def _state_equal(a, b):
     return a[0] == b[0] and bool(np.array_equal(a[1], b[1])) and tuple(a[2:]) == tuple(b[2:])
 
 
-def _call(f, kw, seed, has_seed=True, retry=10):
+def _call(f, kw, seed, has_seed=True, retry=10, globals_state=None):
     """retry: a repetition that times out is re-run once with 10x the budget -- 'ok vs timeout' between repetitions is a
     verdict (same-seed-identical), so a single wall-clock hit on a loaded machine must not produce it"""
-    k = ei.deep_copy(kw)
-    if seed is not None:
-        k['seed'] = seed
-    return call(lambda: f(**k), t=T_CALL, retry=retry)
+    # Every attempt must be the SAME experiment.  A watchdog retry re-runs the callable after a first attempt that was
+    # cut off somewhere: everything the attempt may have consumed or modified is therefore (re)created inside the
+    # callable -- fresh copies of the arguments, a fresh generator object when `seed` is a factory (callable), and for
+    # unseeded calls the state of both global generators (`globals_state`).
+    def attempt():
+        k = ei.deep_copy(kw)
+        if seed is not None:
+            k['seed'] = seed() if callable(seed) else seed
+        if globals_state is not None:
+            np.random.seed(globals_state[0])
+            pyrandom.seed(globals_state[1])
+        return f(**k)
+    return call(attempt, t=T_CALL, retry=retry)
 
 
 def _res_equal(r1, r2):
@@ -114,7 +123,7 @@ def run_task(task):
         # RandomState(s) cannot be constructed: the int == RandomState(int) clause does not apply; the other clauses do
         out['local_draws'] = -1
     else:
-        r3 = _call(f, kw, np.random.RandomState(s))
+        r3 = _call(f, kw, lambda: np.random.RandomState(s))
         out['calls'] += 1
         if not _res_equal(r1, r3):
             out['fails'].append(('int-seed-equals-RandomState', 'seed=%d vs seed=RandomState(%d) differ (%s vs %s)' % (s, s, r1[0], r3[0])))
@@ -122,8 +131,9 @@ def run_task(task):
         np.random.seed(task['prior'][0] + 1)
         pyrandom.seed(task['prior'][2] + 1)
         np0, py0 = np.random.get_state(), pyrandom.getstate()
-        rec = Recorder(s)
-        r4 = _call(f, kw, rec)
+        recs = []
+        r4 = _call(f, kw, lambda: (recs.append(Recorder(s)), recs[-1])[1])
+        rec = recs[-1]          # the generator of the attempt that produced r4
         out['calls'] += 1
         out['local_draws'] = len(rec.log)
         if not _state_equal(np0, np.random.get_state()):
@@ -136,13 +146,13 @@ def run_task(task):
     np.random.seed(task['useed'])
     pyrandom.seed(11)
     py0 = pyrandom.getstate()
-    u1 = _call(f, kw, None)
+    u1 = _call(f, kw, None, retry=0, globals_state=(task['useed'], 11))      # a timeout here is not a verdict: no retry
     npa = np.random.get_state()
     if py0 != pyrandom.getstate():
         out['fails'].append(('unseeded-python-random-untouched', 'random.getstate() differs after the unseeded call'))
     np.random.seed(task['useed'])
     pyrandom.seed(12345)            # a different state of Python's generator must not matter
-    u2 = _call(f, kw, None)
+    u2 = _call(f, kw, None, retry=0, globals_state=(task['useed'], 12345))
     out['calls'] += 2
     if u1[0] != 'timeout' and u2[0] != 'timeout':
         if not _res_equal(u1, u2):
